@@ -153,7 +153,9 @@ def execute(data, measure_mem=False, budget=True):
     from elftools.elf.elffile import ELFFile
     from elftools.common.exceptions import ELFError
     n = len(data)
-    st = CountingStream(data, K_READS * (n + 1), K_BYTES * (n + 1)) if budget else CountingStream(data)
+    # calibration (budget=False): bounds x25 so that the distribution of the linear plans becomes visible
+    f = 1 if budget else 25
+    st = CountingStream(data, f * K_READS * (n + 1), f * K_BYTES * (n + 1))
     res = {'n': n, 'ctor': None, 'exc': None, 'msg': None, 'enum': None, 'excs': [], 'reads': 0, 'bytes': 0, 'peak': -1}
     if measure_mem:
         import tracemalloc
